@@ -100,11 +100,11 @@ void h_step(void)
 /* SEARCH: the whole function on a small concrete buffer (bounded; only used to obtain an input for REPLAY) */
 void h_search(void)
 {
-  char IN[12]; size_t IN_N = nondet_size_t();
-  IORA_NONDET_BYTES(IN, 12);
-  __CPROVER_assume(IN_N <= 12);
-  IORA_TRUE = 1; G_stoul_base = IN;
-  iora_sv data = { IN, IN_N };
+  uint8_t IN[8]; size_t IN_N = nondet_size_t();
+  IORA_NONDET_BYTES(IN, 8);
+  __CPROVER_assume(IN_N <= 8);
+  IORA_TRUE = 1; G_stoul_base = (const char *)IN;
+  iora_sv data = { (const char *)IN, IN_N };
   size_t r = HttpServer_findChunkedRequestEnd(data, 0);
   __CPROVER_assert(r == IORA_NPOS || (0 < r && r <= data.n), "S1");
   __CPROVER_assert(r == IORA_NPOS || r >= 5, "F1");
